@@ -156,7 +156,7 @@ def bytes_oracle(op, line, derived):
 
 def run(ctx):
     facts = ctx.facts() or {}
-    thms = ctx.build_and_audit(["NutsProofs.Props.C17", "NutsProofs.Props.C17Framing", "NutsProofs.Props.C17Fold", "NutsProofs.Props.C17Kid", "NutsProofs.Props.C17LdBytes", "NutsProofs.Props.C17Jar"])
+    thms = ctx.build_and_audit(["NutsProofs.Props.C17", "NutsProofs.Props.C17Framing", "NutsProofs.Props.C17Fold", "NutsProofs.Props.C17Kid", "NutsProofs.Props.C17LdBytes", "NutsProofs.Props.C17Jar", "NutsProofs.Props.C17CaseVar"])
     required = ["allowed_lists_asymmetric", "accept_parseJWT", "accept_parseJWS", "accept_dpop", "accept_dagTx", "accept_dagTx_partial", "accept_dagTx_of_fact",
                 "fact_dag_rejects_private_jwk", "fact_dag_framing_body", "fact_dag_kid_xor_jwk", "fact_alg_fits_key", "fits_is_the_algorithm_of_the_curve", "fact_verifiers_hold_no_key_state", "key_is_current_resolution",
                 "accept_apiToken", "accept_jar", "accept_vcJwt", "accept_vcJsonLd", "fact_vcJsonLd", "fact_wiring", "accept_authzV1", "accept_ldProof", "fact_authzV1",
@@ -173,7 +173,9 @@ def run(ctx):
                 "fact_dpop_private_probes", "dag_refuses_exactly_the_secret_jwks", "dpop_private_test_exact", "dpop_private_test_misses_other_okp_curves",
                 "accept_dpopJ", "accept_dagTxJ",
                 "fact_jar_keyset", "accept_jarSet", "jarSet_unpublished_kid_rejected", "jarSet_first_entry_decides", "jarValidateSet_refines",
-                "jarSet_exit_ok_iff", "loopNoFound_accepts_every_unpublished_kid"]
+                "jarSet_exit_ok_iff", "loopNoFound_accepts_every_unpublished_kid",
+                "fact_caseVariant_loop", "fact_cvSep", "structLoop_none_iff", "structLoop_sound", "caseVariant_verdict_order_independent",
+                "clean_document_decodes_exact_names", "vcJsonLdDocS_refines", "accept_vcJsonLdDocS", "exact_compare_misses_case_variant"]
     for r in required:
         if not any(t.endswith("Props." + r) for t in thms):
             ctx.oblige("thm-present:" + r, False, "theorem missing or its module does not build")
@@ -211,13 +213,14 @@ def run(ctx):
     accepted_valid = Counter()
     jwk_tests = {"dpopj": Counter(), "dagtxj": Counter()}
     jarset_exits = Counter()
+    casevar = Counter()
     reenc = Counter()
     total = total_bad = 0
     samples = []
     replay_c = None
     if ctx.replay:
         txt = open(ctx.replay).read()
-        replay_c = ("c17dag" if ('"hex"' in txt or '"sigalg"' in txt) else "c17jar" if ('"jar"' in txt or '"jarset"' in txt) else "c17vc" if ('"vcjwt"' in txt or '"vcld"' in txt or '"vcldfold"' in txt or '"ambig"' in txt or '"resolvekid"' in txt or '"xph"' in txt) else
+        replay_c = ("c17dag" if ('"hex"' in txt or '"sigalg"' in txt) else "c17jar" if ('"jar"' in txt or '"jarset"' in txt) else "c17vc" if ('"vcjwt"' in txt or '"vcld"' in txt or '"vcldfold"' in txt or '"ambig"' in txt or '"casevar"' in txt or '"resolvekid"' in txt or '"xph"' in txt) else
                     "c17az" if ('"authzv1"' in txt or '"introspect"' in txt) else "c17ld" if '"ldproof"' in txt else "c17")
     for (pkg, files, name) in HARNESSES:
         if replay_c and replay_c != name:
@@ -294,6 +297,23 @@ def run(ctx):
                     if sig not in seen_sig:
                         seen_sig[sig] = 1 if ctx.violation(sig, f"ambiguousMember found nothing in {json.dumps(op['doc'], ensure_ascii=True)[:400]} although one object holds two members "
                                                            "that encoding/json reads as the same member (names equal under Unicode simple case folding)", "ambig-conflated-members-not-refused.jsonl", ops[i]) else 0
+                    o_unsuppressed += seen_sig[sig]
+                continue
+            if op.get("op") == "casevar":
+                table.setdefault("casevar", Counter())[f"{line}:{op['ty'].get('kind')}:variant={op.get('variant')}:conflated={op.get('conflated')}"] += 1
+                distinct.add(("casevar", op["name"].split("-", 2)[-1], line, op.get("variant"), op.get("conflated")))
+                casevar[line + (":variant" if op.get("variant") else "")] += 1
+                # what the node reads must be what was signed: a top-level member that encoding/json stores in a field of the decoded struct
+                # although it is not spelt like the field's JSON name (so the canonicalisation dropped it), or two conflated members anywhere
+                if line == "clean" and (op.get("variant") or op.get("conflated")):
+                    o_bad += 1
+                    sig = "C17:vcld:case-variant-of-field-not-refused" if op.get("variant") else "C17:vcld:conflated-members-not-refused"
+                    if sig not in seen_sig:
+                        seen_sig[sig] = 1 if ctx.violation(sig, f"caseVariantMember({json.dumps(op['doc'], ensure_ascii=True)[:300]}, {op['name'].split('-', 2)[-1]} json tags {op['ty'].get('tags')}) found nothing "
+                                                           "although " + ("a top-level member differs only by case from the JSON name of a field of the decoded type: encoding/json stores it in that field, "
+                                                                          "the JSON-LD canonicalisation does not know it (unsigned content is read)" if op.get("variant") else
+                                                                          "one object holds two members that encoding/json reads as the same member"),
+                                                           "casevar-not-refused.jsonl", ops[i]) else 0
                     o_unsuppressed += seen_sig[sig]
                 continue
             if op.get("op") in ("b64", "framing", "framingtx", "sigalg"):
@@ -381,6 +401,7 @@ def run(ctx):
         for c in ("dpopj", "dagtxj"):
             ctx.oblige(f"non-vacuous:{c}-accepts-a-public-jwk-and-refuses-a-private-one(impl)",
                        jwk_tests[c]["passed accept"] > 0 and jwk_tests[c]["refused reject"] > 0, str(dict(jwk_tests[c])))
+        ctx.oblige("non-vacuous:casevar-finds-a-variant-and-passes-a-clean-document(impl)", casevar["found:variant"] > 0 and casevar["clean"] > 0, str(dict(casevar)))
         ctx.oblige("non-vacuous:jarset-takes-all-three-exits(impl)",
                    jarset_exits["accept"] > 0 and jarset_exits["reject:client_id does not own signer key"] > 0 and
                    jarset_exits["reject:key mismatch between OpenID configuration and signer key"] > 0, str(dict(jarset_exits)))
